@@ -18,7 +18,12 @@ var purePkgPrefixes = []string{
 	"github.com/milvus-io/milvus/pkg/util/funcutil.GetVirtualChannel", "google.golang.org/protobuf/proto.Marshal", "google.golang.org/protobuf/proto.Size",
 	"github.com/golang/protobuf/proto.Marshal", "github.com/golang/protobuf/proto.Size", "github.com/zilliztech/milvus-cdc/server/metrics",
 	"github.com/goccy/go-json.Marshal", "encoding/json.Marshal",
+	"github.com/milvus-io/milvus/pkg/util/lock", "github.com/milvus-io/milvus/pkg/util/typeutil", "github.com/milvus-io/milvus/pkg/util/funcutil",
+	"github.com/milvus-io/milvus/pkg/util/retry.Attempts", "github.com/milvus-io/milvus/pkg/util/retry.Sleep", "github.com/milvus-io/milvus/pkg/util/retry.MaxSleepTime",
 }
+
+// noReturnNames: logging calls that end the goroutine / process.
+var noReturnNames = map[string]bool{"Panic": true, "Fatal": true, "Panicf": true, "Fatalf": true, "DPanic": false}
 
 func (g *Gen) isPureExternal(name string) bool {
 	n := strings.TrimPrefix(name, "(*")
@@ -197,6 +202,14 @@ func (fc *FnCtx) call(ins ssa.Instruction, cc *ssa.CallCommon, res ssa.Value) {
 // unknownCall: no contract. Pure externals leave the heap alone; everything else havocs it.
 func (fc *FnCtx) unknownCall(ins ssa.Instruction, name string, sig *types.Signature, pure bool) []Val {
 	g := fc.g
+	if noReturnNames[lastPart(name)] && (strings.Contains(name, "/log.") || strings.Contains(name, "zap.") || strings.HasPrefix(name, "log.")) {
+		if fc.noPanic {
+			fc.oblige("never-panics", "", posOf(ins), "false", "log.Panic / log.Fatal reached", "")
+		} else {
+			g.note(fmt.Sprintf("explicit panic site assumed unreachable: %s", fc.posStr(ins)))
+		}
+		fc.assume("false", "log.Panic/Fatal")
+	}
 	if pure {
 		g.trusted["modifies-nothing (logging/formatting/metrics/time): "+pkgOfName(name)] = true
 	} else {
@@ -281,6 +294,18 @@ func (e *Env) resolveModifies(entries []string) (targets []modTarget, all bool) 
 		m = strings.TrimSpace(m)
 		if m == "*" {
 			return nil, true
+		}
+		if strings.HasPrefix(m, "* except ") {
+			// everything but the listed ghost variables
+			for _, x := range strings.Fields(strings.TrimPrefix(m, "* except ")) {
+				if gv, ok := g.cs.Ghosts[x]; ok {
+					e.ghostVal(gv)
+					targets = append(targets, modTarget{key: "G|" + x, whole: true})
+				} else {
+					cxFail("modifies * except %s: not a ghost variable", x)
+				}
+			}
+			return targets, true
 		}
 		if _, ok := g.cs.Ghosts[m]; ok {
 			gv := e.ghostVal(g.cs.Ghosts[m])
@@ -395,7 +420,15 @@ func (fc *FnCtx) applyContract(ins ssa.Instruction, c *Contract, name string, si
 	} else {
 		targets, all := env.resolveModifies(c.Modifies)
 		if all {
+			keep := map[string]string{}
+			for _, t := range targets {
+				keep[t.key] = g.get(fc.cur, t.key)
+			}
 			g.havocAll(fc.cur, name)
+			for k, v := range keep {
+				fc.cur.m[k] = v
+			}
+			targets = nil
 		}
 		for _, t := range targets {
 			if t.whole {
